@@ -13,6 +13,7 @@ CONSTANTS
   ChunkAbort = FALSE
   FixStopDone = FALSE
   FixClosed = FALSE
+  Cancels <- TrCancels
   Admit <- Known
 POSTCONDITION TPost
 CHECK_DEADLOCK FALSE
